@@ -124,6 +124,8 @@ structure Dec where
   st : H4.BitIO.St
   buffer : List UInt8
   bufPos : Nat := NBIT_BUF_SIZE
+  /-- `buf_len`: number of expanded bytes in the buffer (0 after `HCIcnbit_init`) -/
+  bufLen : Nat := 0
   sign : Bool := false
   fail : Bool := false
 
@@ -139,27 +141,29 @@ def refillItems (c : Cfg) : Nat → H4.BitIO.St → Bool → Option (List UInt8 
       | none => none
       | some (r, st'', sg'') => some (item ++ r, st'', sg'')
 
-/-- the `while (length > 0)` loop of `HCIcnbit_decode`; fuel = length + 1 -/
-def decodeLoop (c : Cfg) (bufSize bufItems : Nat) : Nat → Dec → Nat → List UInt8 → Dec × List UInt8
+/-- the `while (length > 0)` loop of `HCIcnbit_decode`; fuel = length + 1.  When everything expanded so far has been
+    delivered (`buf_pos >= buf_len`) the buffer is re-filled with what the rest of the request needs: at most a buffer full,
+    at least one item -/
+def decodeLoop (c : Cfg) : Nat → Dec → Nat → List UInt8 → Dec × List UInt8
   | 0, d, _, acc => (d, acc)
   | fuel+1, d, length, acc =>
     if length = 0 then (d, acc)
     else
       let d :=
-        if d.bufPos ≥ bufSize then
+        if d.bufPos ≥ d.bufLen then
+          let bufItems := max (min NBIT_BUF_SIZE length / c.ntSize) 1
           match refillItems c bufItems d.st d.sign with
-          | none => { d with fail := true, bufPos := 0 }
-          | some (items, st, sg) => { d with st := st, sign := sg, buffer := items ++ d.buffer.drop items.length, bufPos := 0 }
+          | none => { d with fail := true, bufPos := 0, bufLen := bufItems * c.ntSize }
+          | some (items, st, sg) =>
+            { d with st := st, sign := sg, buffer := items ++ d.buffer.drop items.length, bufPos := 0, bufLen := bufItems * c.ntSize }
         else d
-      let copy := if length > bufSize - d.bufPos then bufSize - d.bufPos else length
-      decodeLoop c bufSize bufItems fuel { d with bufPos := d.bufPos + copy } (length - copy)
+      let copy := if length > d.bufLen - d.bufPos then d.bufLen - d.bufPos else length
+      decodeLoop c fuel { d with bufPos := d.bufPos + copy } (length - copy)
         (acc ++ (d.buffer.drop d.bufPos).take copy)
 
 /-- `HCIcnbit_decode(info, length, buf)` (one `Hread` of `length` bytes) -/
 def decode (c : Cfg) (d : Dec) (length : Nat) : Dec × List UInt8 :=
-  let bufSize := min NBIT_BUF_SIZE length
-  let bufItems := bufSize / c.ntSize
-  decodeLoop c bufSize bufItems (length + 1) d length []
+  decodeLoop c (length + 1) d length []
 
 /-- `HCPcnbit_seek(access_rec, offset, origin)`: only to whole values -/
 def seek (c : Cfg) (d : Dec) (offset : Nat) : Dec :=
